@@ -1,4 +1,5 @@
 import Goat.Gen.Tables
+import Goat.Gen.Facts
 /-!
 # Model of `treeSort` (tree.go): a stable sort of the top-level nodes by kind priority, descending.
 
